@@ -30,6 +30,7 @@ type TLCRun struct {
 	Coverage  bool              // -coverage 1
 	ExtraArgs []string
 	Label     string // for logs
+	KnownDevs []string // when non-nil: the cfg's line "KnownDevs = {...}" is rewritten with these names
 }
 
 // TLCResult is what was parsed from TLC's output.
@@ -86,6 +87,12 @@ func (c *Ctx) RunTLC(run TLCRun) (*TLCResult, error) {
 
 	if run.Cfg == "" {
 		run.Cfg = run.Module + ".cfg"
+	}
+
+	if run.KnownDevs != nil {
+		if err := rewriteKnownDevs(filepath.Join(dir, run.Cfg), run.KnownDevs); err != nil {
+			return nil, err
+		}
 	}
 
 	if run.Workers <= 0 {
@@ -249,6 +256,43 @@ func parseTLCOutput(path string, res *TLCResult) {
 			}
 		}
 	}
+}
+
+var reKnownDevs = regexp.MustCompile(`KnownDevs\s*=\s*\{[^}]*\}`)
+
+func rewriteKnownDevs(cfgPath string, devs []string) error {
+	b, err := os.ReadFile(cfgPath)
+	if err != nil {
+		return err
+	}
+
+	q := make([]string, 0, len(devs))
+	for _, d := range devs {
+		q = append(q, strconv.Quote(d))
+	}
+
+	out := reKnownDevs.ReplaceAll(b, []byte("KnownDevs = {"+strings.Join(q, ", ")+"}"))
+
+	return os.WriteFile(cfgPath, out, 0o644)
+}
+
+// UsedFindings returns the ids printed by the trace specification as <<"USED", {...}>>.
+func (r *TLCResult) UsedFindings() []string {
+	var out []string
+
+	for _, p := range r.Printed {
+		if !strings.HasPrefix(p, "<<\"USED\"") {
+			continue
+		}
+
+		for _, m := range regexp.MustCompile(`"([^"]+)"`).FindAllStringSubmatch(p, -1) {
+			if m[1] != "USED" {
+				out = append(out, m[1])
+			}
+		}
+	}
+
+	return out
 }
 
 func copySpecs(src, dst string) error {
